@@ -32,17 +32,23 @@
 (*   PlainTagNotPushed a flag written as a plain tag is not pushed: the      *)
 (*                    children are compared with an OUTER container's entry *)
 (*   SafeTagTrue      a lone safe=True is written as `!safe` (unparsable)   *)
+(*   KindTagNoMd      !append !prev !include !import have no `!tag:<enc>`    *)
+(*                    constructor: such a node holding a flag (a priority   *)
+(*                    pushed down by a tagged container) dumps unparsably   *)
 (*   NullDropsFlags   None is written as bare `!null`: flags + metadata lost*)
 (*   ClearNoValue     dumping a !clear node raises AttributeError           *)
 (*   PathNoRefWraps   `!path` without reference point: the dumped mapping   *)
-(*                    {values, ref_point} is re-read as ONE path component  *)
+(*                    {values, ref_point} is re-read as ONE path component; *)
+(*                    with metadata the encoded part is taken for the       *)
+(*                    reference point and then overwritten: metadata lost   *)
 (*   ReprQuoting      a tagged string is written through Python repr() and  *)
 (*                    re-read by YAML quoting rules (backslash doubles)     *)
 (***************************************************************************)
 EXTENDS AyMerge
 
 AllDeviations == {"ElideDelDefault", "ElideNewDefault", "ElideSafeDefault", "ElideSafeParent",
-                  "PlainTagNotPushed", "SafeTagTrue", "NullDropsFlags", "ClearNoValue", "PathNoRefWraps", "ReprQuoting"}
+                  "PlainTagNotPushed", "SafeTagTrue", "KindTagNoMd", "NullDropsFlags", "ClearNoValue", "PathNoRefWraps",
+                  "ReprQuoting"}
 
 NullAtom == <<"n", "">>
 IsNullNode(n) == n.k = "scalar" /\ n.v = NullAtom
@@ -109,6 +115,12 @@ ReprText(s) == IF s = "a\\b" THEN "a\\\\b"
                ELSE IF s = "a\\\\b" THEN "a\\\\\\\\b"
                ELSE s
 ReprKinds == {"scalar", "eval", "fstr", "import"}
+\* kinds whose tag has no multi-constructor (yaml.py:486-521)
+NoMdKinds == {"append", "prev", "include", "import"}
+\* FStrNode has no tag of its own: it is written as the !eval of its f-string
+\* (fstr.py:19-49; the same evaluation for one-line code).  Class identity of
+\* the two is not an observable of the property.
+KindClass(k) == IF k = "fstr" THEN "eval" ELSE k
 
 SDRec(k, v, ch, fn, ref, form, r, md) ==
     [k |-> k, v |-> v, ch |-> ch, fn |-> fn, ref |-> ref, form |-> form,
@@ -147,9 +159,13 @@ DumpNode(n, st, dev) ==
                                <<SKey("ref_point"), SDRec("scalar", <<"s", "">>, <<>>, "", <<>>, "none", Stack0, {})>> >>,
                             "", <<>>, "none", Stack0, {})>> >>
     IN IF n.k = "clear" /\ "ClearNoValue" \in dev THEN DumpErrSD    \* clear.py has no value
+       ELSE IF n.k \in NoMdKinds /\ form = "md" /\ "KindTagNoMd" \in dev
+       THEN SDRec(n.k, v, kids, n.fn, n.ref, "noctor", r, md)
        ELSE IF n.k = "path" /\ n.fn = "" /\ "PathNoRefWraps" \in dev
-       THEN SDRec(n.k, v, wrap, n.fn, n.ref, form, r, md)
-       ELSE SDRec(n.k, v, kids, n.fn, n.ref, form, r, md)
+       THEN (IF form = "md"        \* yaml.py:416-423: `!path:<enc>` = reference point <enc>, then data's ref_point '' wins
+             THEN SDRec(n.k, v, kids, n.fn, n.ref, "tag", Stack0, {})
+             ELSE SDRec(n.k, v, wrap, n.fn, n.ref, form, r, md))
+       ELSE SDRec(KindClass(n.k), v, kids, n.fn, n.ref, form, r, md)
 
 Dump(t, dev) == DumpNode(t, Stack0, dev)
 
@@ -160,7 +176,7 @@ Fired(t, asis) == {d \in asis : Dump(t, asis \ {d}) # Dump(t, asis) \/ Dump(t, {
 RECURSIVE DumpFails(_), Unparsable(_)
 DumpFails(sd)  == sd.k = "DUMPERR" \/ \E i \in 1..Len(sd.ch) : DumpFails(sd.ch[i][2])
 \* `!safe` has no constructor (yaml.py:486-521)
-Unparsable(sd) == (sd.form = "tag" /\ sd.safe = "T") \/ \E i \in 1..Len(sd.ch) : Unparsable(sd.ch[i][2])
+Unparsable(sd) == sd.form = "noctor" \/ (sd.form = "tag" /\ sd.safe = "T") \/ \E i \in 1..Len(sd.ch) : Unparsable(sd.ch[i][2])
 
 \* the dumped document read back as a source of the same safety
 ParseD(sd, srcSafe) ==
@@ -180,7 +196,7 @@ RoundTrip(t, dev) == ParseD(Dump(t, dev), t.dsafe = "T")
 SafeKinds == {"call", "bind", "eval", "fstr", "import", "include"}
 
 RECURSIVE Obs(_)
-Obs(n) == [k |-> n.k, v |-> n.v, fn |-> n.fn, ref |-> n.ref, md |-> n.md, pr |-> EffPr(n),
+Obs(n) == [k |-> KindClass(n.k), v |-> n.v, fn |-> n.fn, ref |-> n.ref, md |-> n.md, pr |-> EffPr(n),
            safe  |-> IF n.k \in SafeKinds THEN EffSafe(n) ELSE TRUE,
            ksafe |-> IF IsComposed(n) THEN ChildKw(n).isafe # "F" ELSE TRUE,
            ch |-> [i \in 1..Len(n.ch) |-> <<n.ch[i][1], Obs(n.ch[i][2])>>]]
@@ -188,7 +204,7 @@ ObsR(x) == IF IsErr(x) THEN [err |-> x.err] ELSE Obs(x)
 
 \* Obs(a) = Obs(b), evaluated without building the two observations
 ObsFlagsEq(a, b) ==
-    /\ a.k = b.k /\ a.v = b.v /\ a.fn = b.fn /\ a.ref = b.ref /\ a.md = b.md /\ EffPr(a) = EffPr(b)
+    /\ KindClass(a.k) = KindClass(b.k) /\ a.v = b.v /\ a.fn = b.fn /\ a.ref = b.ref /\ a.md = b.md /\ EffPr(a) = EffPr(b)
     /\ (a.k \in SafeKinds => EffSafe(a) = EffSafe(b))
     /\ (IsComposed(a) => (ChildKw(a).isafe # "F") = (ChildKw(b).isafe # "F"))
     /\ Len(a.ch) = Len(b.ch)
@@ -200,7 +216,7 @@ ObsEq(a, b) ==
 ObsREq(x, y) == IF IsErr(x) \/ IsErr(y) THEN IsErr(x) /\ IsErr(y) /\ x.err = y.err ELSE ObsEq(x, y)
 
 RECURSIVE DataD(_), MdTree(_)
-DataD(n) == [k |-> n.k, v |-> n.v, fn |-> n.fn, ref |-> n.ref,
+DataD(n) == [k |-> KindClass(n.k), v |-> n.v, fn |-> n.fn, ref |-> n.ref,
              ch |-> [i \in 1..Len(n.ch) |-> <<n.ch[i][1], DataD(n.ch[i][2])>>]]
 MdTree(n) == [md |-> n.md, ch |-> [i \in 1..Len(n.ch) |-> <<n.ch[i][1], MdTree(n.ch[i][2])>>]]
 
